@@ -6,6 +6,7 @@ import (
 	"go/token"
 	"go/types"
 	"math/big"
+	"regexp"
 	"sort"
 	"strings"
 
@@ -111,9 +112,18 @@ type Gen struct {
 	curIdx     int      // index in curBlock of the instruction being executed
 	needGomod      bool
 	pendingAsserts []Clause
+	pendingGhosts  []Clause
+	ghostVals      map[string]Val
+	ghostDefs      []ghostDef
 	assertsSeen    map[string]bool
 	leafT      map[string]types.Type // heap name -> Go type of a cell
 	leafDepth  map[string]int        // heap name -> number of indices down to a cell
+}
+
+type ghostDef struct {
+	name  string
+	block *ssa.BasicBlock
+	val   Val
 }
 
 type loopInfo struct {
@@ -383,8 +393,18 @@ func (g *Gen) newRef(hint string) string {
 // ---------- type names ----------
 
 func (g *Gen) typeName(t types.Type) string {
-	return types.TypeString(t, func(p *types.Package) string { return p.Name() })
+	s := types.TypeString(t, func(p *types.Package) string { return p.Name() })
+	// heap names are derived from type names: the predeclared aliases must not yield separate heaps
+	if strings.Contains(s, "byte") || strings.Contains(s, "rune") || strings.Contains(s, "interface{}") {
+		s = aliasByte.ReplaceAllString(s, "uint8")
+		s = aliasRune.ReplaceAllString(s, "int32")
+		s = strings.ReplaceAll(s, "interface{}", "any")
+	}
+	return s
 }
+
+var aliasByte = regexp.MustCompile(`\bbyte\b`)
+var aliasRune = regexp.MustCompile(`\brune\b`)
 
 func (g *Gen) ptrOf(v Val) Ptr {
 	if v.K == kPtr {
@@ -564,14 +584,20 @@ func (g *Gen) prelude(body string) string {
 			b.WriteString("(assert (forall ((o Int) (i Int)) (! (= (ix o i) (+ o i)) :pattern ((ix o i)) :qid ix_ax)))\n")
 		}
 		if uses("slen") {
-			b.WriteString("(assert (forall ((s Str)) (! (>= (slen s) 0) :pattern ((slen s)))))\n")
+			// no string is longer than 2^56 bytes (far beyond any address space; makes len+1 overflow-free)
+			b.WriteString("(assert (forall ((s Str)) (! (and (>= (slen s) 0) (<= (slen s) 72057594037927936)) :pattern ((slen s)))))\n")
 		}
 		if uses("sat") {
 			b.WriteString("(assert (forall ((s Str) (i Int)) (! (and (<= 0 (sat s i)) (<= (sat s i) 255)) :pattern ((sat s i)))))\n")
 		}
 		if uses("ssub") {
 			b.WriteString("(assert (forall ((s Str) (a Int) (b Int)) (! (=> (and (<= 0 a) (<= a b) (<= b (slen s))) (= (slen (ssub s a b)) (- b a))) :pattern ((ssub s a b)))))\n")
-			b.WriteString("(assert (forall ((s Str) (a Int) (b Int) (i Int)) (! (=> (and (<= 0 a) (<= a b) (<= b (slen s)) (<= 0 i) (< i (- b a))) (= (sat (ssub s a b) i) (sat s (+ a i)))) :pattern ((sat (ssub s a b) i)))))\n")
+			b.WriteString("(assert (forall ((s Str) (a Int) (b Int) (i Int)) (! (=> (and (<= 0 a) (<= a b) (<= b (slen s)) (<= 0 i) (< i (- b a))) (= (sat (ssub s a b) i) (sat s (+ a i)))) :pattern ((sat (ssub s a b) i)) :qid ssub_at)))\n")
+			// the same fact seen from the parent string: a byte of s inside [a,b) is a byte of the substring
+			b.WriteString("(assert (forall ((s Str) (a Int) (b Int) (k Int)) (! (=> (and (<= 0 a) (<= a k) (< k b) (<= b (slen s))) (= (sat s k) (sat (ssub s a b) (- k a)))) :pattern ((ssub s a b) (sat s k)) :qid ssub_up)))\n")
+			// substring of a substring
+			b.WriteString("(assert (forall ((s Str) (a Int) (b Int) (c Int) (d Int)) (! (=> (and (<= 0 a) (<= a b) (<= b (slen s)) (<= 0 c) (<= c d) (<= d (- b a))) (= (ssub (ssub s a b) c d) (ssub s (+ a c) (+ a d)))) :pattern ((ssub (ssub s a b) c d)) :qid ssub_ssub)))\n")
+			b.WriteString("(assert (forall ((s Str)) (! (= (ssub s 0 (slen s)) s) :pattern ((ssub s 0 (slen s))) :qid ssub_all)))\n")
 		}
 		if uses("scat") {
 			b.WriteString("(assert (forall ((s Str) (t Str)) (! (= (slen (scat s t)) (+ (slen s) (slen t))) :pattern ((scat s t)))))\n")
